@@ -131,6 +131,10 @@ def sv_for(name, tag, value):
         return SV("lref", z3.Const(name, L.LRef)), {name: value}
     if tag == "dref":
         return SV("dref", z3.Const(name, L.DRef)), {name: value}
+    if tag.startswith("enum:"):
+        return SV("enum", tag[5:]), {}
+    if tag.startswith("str:"):
+        return SV("str", tag[4:]), {}
     raise rtcheck.NotEvaluable(f"parameter tag {tag}")
 
 
@@ -149,13 +153,88 @@ def result_sv(value, c):
         return SV("lref", z3.Const(name, L.LRef)), {name: value}
     if isinstance(value, dict):
         return SV("dref", z3.Const(name, L.DRef)), {name: value}
-    if isinstance(value, tuple) and c.is_generator:
+    if isinstance(value, tuple) and (c.is_generator or c.result_tag == "pseq"):
         return SV("gen", z3.Const(name, L.PSeq)), {name: value}
     if isinstance(value, bool):
         return BoolV(bool(value)), {}
     if isinstance(value, int) and c.result_tag in ("int",):
         return IntV(int(value)), {}
     return SV("val", z3.Const(name, L.Val)), {name: value}
+
+
+def changed_components(s0, s1) -> set:
+    from nutree.node import Node
+    from nutree.tree import Tree
+
+    out = set()
+    for comp, d0 in s0.field.items():
+        d1 = s1.field[comp]
+        if any(oid in d1 and d1[oid] is not v and not rtcheck.val_eq(d1[oid], v) for oid, v in d0.items()) or any(oid not in d0 and v is not None for oid, v in d1.items()):
+            out.add(comp)
+    if set(s1.objs) - set(s0.objs):
+        out.add("alloc")
+    if set(s1.lobjs) - set(s0.lobjs):
+        out |= {"lalloc", "llen", "litem"}
+    if set(s1.dobjs) - set(s0.dobjs):
+        out |= {"dalloc", "ddom", "dcard", "dref", "dlst", "dval"}
+    for lid, c0 in s0.lists.items():
+        c1 = s1.lists.get(lid)
+        if c1 is not None and tuple(map(id, c1)) != tuple(map(id, c0)):
+            out.add("litem")
+            if len(c1) != len(c0):
+                out.add("llen")
+    for did_, c0 in s0.dicts.items():
+        c1 = s1.dicts.get(did_)
+        if c1 is None:
+            continue
+        if set(map(_vkey, c1.keys())) != set(map(_vkey, c0.keys())):
+            out |= {"ddom", "dcard"}
+        for k, v in c0.items():
+            if k in c1 and c1[k] is not v and not rtcheck.val_eq(c1[k], v):
+                out.add("dref" if isinstance(v, (Node, Tree)) or isinstance(c1[k], (Node, Tree)) else "dlst" if isinstance(v, list) or isinstance(c1[k], list) else "dval")
+        for k, v in c1.items():
+            if k not in c0:
+                out.add("dref" if isinstance(v, (Node, Tree)) else "dlst" if isinstance(v, list) else "dval")
+    for g in ("pos", "rank", "cpos"):
+        a, b = getattr(s0, g), getattr(s1, g)
+        if any(b.get(k, 0) != v for k, v in a.items()) or any(k not in a for k in b):
+            out.add(g)
+    return out
+
+
+def changed_existing(s0, s1) -> set:
+    """components that differ on objects / lists / dicts / keys that existed at entry"""
+    from nutree.node import Node
+    from nutree.tree import Tree
+
+    out = set()
+    for comp, d0 in s0.field.items():
+        d1 = s1.field[comp]
+        if any(oid in d1 and d1[oid] is not v and not rtcheck.val_eq(d1[oid], v) for oid, v in d0.items()):
+            out.add(comp)
+    for lid, c0 in s0.lists.items():
+        c1 = s1.lists.get(lid)
+        if c1 is not None and tuple(map(id, c1)) != tuple(map(id, c0)):
+            out.add("litem")
+            if len(c1) != len(c0):
+                out.add("llen")
+    for did_, c0 in s0.dicts.items():
+        c1 = s1.dicts.get(did_)
+        if c1 is None:
+            continue
+        if set(map(_vkey, c1.keys())) != set(map(_vkey, c0.keys())):
+            out |= {"ddom", "dcard"}
+        for k, v in c0.items():
+            if k in c1 and c1[k] is not v and not rtcheck.val_eq(c1[k], v):
+                out.add("dref" if isinstance(v, (Node, Tree)) else "dlst" if isinstance(v, list) else "dval")
+    return out
+
+
+def _vkey(k):
+    return (type(k).__name__ if not isinstance(k, (int, str)) else "k", k if isinstance(k, (int, str)) else id(k))
+
+
+EVAL = rtcheck.Evaluator()
 
 
 class FakeEx:
@@ -168,8 +247,10 @@ class FakeEx:
 
 def base_consts():
     from nutree.typed_tree import ANY_KIND
+    from .exprs import STR_CONSTS
 
-    return {"NONE": None, "LNONE": None, "DNONE": None, "VNONE": None, "ANY_KIND": ANY_KIND, "ROOT_DATA_ID": "__root__", "DELETED_TAG": "<deleted>", "V_TRUE": True, "V_FALSE": False, "Empty": ()}
+    return {"NONE": None, "LNONE": None, "DNONE": None, "VNONE": None, "ANY_KIND": ANY_KIND, "ROOT_DATA_ID": "__root__", "DELETED_TAG": "<deleted>", "V_TRUE": True, "V_FALSE": False, "Empty": (),
+            **{c.decl().name(): lit for lit, c in STR_CONSTS.items()}}
 
 
 def describe(v):
@@ -209,6 +290,17 @@ def run_case(qual, c, family, spec, tags: dict, args: dict, ev_budget=None):
             amap[n] = tree._root
         elif kind == "othernode":
             amap[n] = other._root._children[0]
+        elif kind == "fresh":
+            nc = type(tree._root).__mro__[1] if False else (tree._node_factory if hasattr(tree, "_node_factory") else None)
+            from nutree.node import Node
+            from nutree.typed_tree import TypedNode
+            amap[n] = object.__new__(TypedNode if spec.typed else Node)
+        elif kind == "anykind":
+            from nutree.typed_tree import ANY_KIND
+            amap[n] = ANY_KIND
+        elif kind == "iter":
+            from nutree.common import IterMethod
+            amap[n] = getattr(IterMethod, val)
         elif kind == "tree":
             amap[n] = tree
         elif kind == "othertree":
@@ -218,7 +310,7 @@ def run_case(qual, c, family, spec, tags: dict, args: dict, ev_budget=None):
         elif kind == "clonelist":
             amap[n] = list(tree._nodes_by_data_id.values())[val]
         else:
-            amap[n] = val
+            amap[n] = dict(val) if isinstance(val, dict) else list(val) if isinstance(val, list) else val
     keep = []
     roots = [tree, other] + [v for v in amap.values()]
     s0 = rtcheck.Snapshot(roots, keep)
@@ -239,12 +331,14 @@ def run_case(qual, c, family, spec, tags: dict, args: dict, ev_budget=None):
         raise
     except Exception as e:  # noqa: BLE001
         exc = e
-    s1 = rtcheck.Snapshot(roots + [result], keep)
+    s1 = rtcheck.Snapshot(roots + [result] + list(s0.objs.values()) + list(s0.lobjs.values()) + list(s0.dobjs.values()), keep)
     max_len = max([len(v) for s in (s0, s1) for v in s.lists.values()] + [len(v) for s in (s0, s1) for v in s.dicts.values()] + [max(s1.rank.values(), default=0), max(s0.rank.values(), default=0), 1])
     if isinstance(result, tuple):
         max_len = max(max_len, len(result))
     h0 = L.Heap.initial("0")
-    h1 = h0.havoc(tuple(c.modifies_) + ("pos", "rank", "cpos"), tag="rt1")
+    # the exit heap gets a new symbol exactly for the components that really differ between the two snapshots
+    # (contract clauses may branch on "was this component written at all", as the prover's exit heaps do)
+    h1 = h0.havoc(tuple(sorted(changed_components(s0, s1))), tag="rt1")
     svs, consts = {}, base_consts()
     for n, t in tags.items():
         sv, cs = sv_for(n, t, amap[n])
@@ -254,33 +348,19 @@ def run_case(qual, c, family, spec, tags: dict, args: dict, ev_budget=None):
     ex = FakeEx(family)
     x0 = Ctx(ex, h0, h0, a, family=family)
     x0.p = None
-    E = rtcheck.Evaluator({"0": s0, "rt1": s1}, consts, max_len)
+    E = EVAL
+    E.set_world({"0": s0, "rt1": s1}, consts, max_len)
     # heap components outside `modifies` are read from the entry snapshot by construction; the frame is checked natively
     fails = []
     n_clauses = 0
     for rname, rfn in c.requires_:
         if not E.holds(rfn(x0)):
             return "pre-rejected", [], 0
-    # component frame: nothing outside modifies changed on objects that existed at entry
-    for comp in L.COMPONENTS:
-        if comp in c.modifies_ or comp in L.GHOST or comp in ("alloc", "lalloc", "dalloc"):
-            continue
-        n_clauses += 1
-        if comp in s0.field:
-            for oid, v in s0.field[comp].items():
-                if oid in s1.field[comp] and not (s1.field[comp][oid] is v or rtcheck.val_eq(s1.field[comp][oid], v)):
-                    fails.append((f"frame: modifies only {sorted(c.modifies_)}", f"{comp} of {describe(s0.objs.get(oid))} changed"))
-                    break
-        elif comp in ("llen", "litem"):
-            for lid, content in s0.lists.items():
-                if lid in s1.lists and tuple(map(id, s1.lists[lid])) != tuple(map(id, content)):
-                    fails.append((f"frame: modifies only {sorted(c.modifies_)}", f"a list that existed at entry changed ({comp})"))
-                    break
-        elif comp in ("ddom", "dref", "dlst", "dval", "dcard"):
-            for did_, content in s0.dicts.items():
-                if did_ in s1.dicts and (s1.dicts[did_].keys() != content.keys() or any(s1.dicts[did_][k] is not content[k] and not rtcheck.val_eq(s1.dicts[did_][k], content[k]) for k in content)):
-                    fails.append((f"frame: modifies only {sorted(c.modifies_)}", f"a dict that existed at entry changed ({comp})"))
-                    break
+    # component frame: nothing outside `modifies` changed on objects that existed at entry (fresh objects are free)
+    n_clauses += 1
+    extra = changed_existing(s0, s1) - set(c.modifies_) - set(L.GHOST)
+    if extra:
+        fails.append((f"frame: modifies only {sorted(c.modifies_)}", f"also changed on pre-existing objects: {sorted(extra)}"))
     if exc is None:
         rsv, rc = result_sv(result, c)
         E.consts.update(rc)
@@ -353,11 +433,18 @@ def arg_descriptions(tag, spec, tree_nodes_n, clone_lists_n, rng):
     if tag == "kind":
         return [("lit", v) for v in ("k1", "k2", "".join(["k", "1"]), "kx")]
     if tag == "anykind":
-        return [("lit", ANY_KIND)]
+        return [("anykind", None)]
     if tag == "lref":
         return [("childlist", i) for i in range(-1, tree_nodes_n)] + [("clonelist", i) for i in range(clone_lists_n)] + [("lit", [])]
     if tag == "dref":
         return [("lit", {}), ("lit", {"k": 1})]
+    if tag.startswith("enum:"):
+        from nutree.common import IterMethod
+        from .exprs import ENUM_ITERMETHOD
+
+        return [("iter", k) for k, v in ENUM_ITERMETHOD.items() if v == tag[5:]][:1]
+    if tag.startswith("str:"):
+        return [("lit", tag[4:])]
     raise rtcheck.NotEvaluable(f"no concrete pool for parameter tag {tag}")
 
 
@@ -366,6 +453,7 @@ def cases_for(qual, c, family, tier, rng, per_tree):
 
     names = list(c.params)
     out = []
+    is_init = qual.endswith(".__init__")
     for spec in trees_for(family, tier):
         tree, nodes = gen.build(spec)
         n_nodes, n_cl = len(nodes), len(tree._nodes_by_data_id)
@@ -375,6 +463,8 @@ def cases_for(qual, c, family, tier, rng, per_tree):
                 pools_ = [arg_descriptions(t, spec, n_nodes, n_cl, rng) for t in tagcombo]
             except rtcheck.NotEvaluable:
                 continue
+            if is_init:
+                pools_[names.index("self")] = [("fresh", None)]
             for vals in itertools.product(*pools_):
                 ok = True
                 for n, t, d in zip(names, tagcombo, vals):
@@ -420,8 +510,8 @@ def check_function(qual, tier="quick", per_tree=12, seed=0, verbose=False, max_f
             rep["clauses"] += n
             for clause, text in fails:
                 if len(rep["failures"]) < max_fail or verbose:
-                    rep["failures"].append({"family": family, "spec": spec.short(), "spec_nodes": [list(r) for r in spec.nodes], "typed": spec.typed, "tags": tags,
-                                            "args": {k: list(v) if not isinstance(v[1], (dict, list)) else [v[0], repr(v[1])] for k, v in args.items()}, "clause": clause, "text": text})
+                    rep["failures"].append({"qual": qual, "family": family, "spec": spec.short(), "spec_nodes": [list(r) for r in spec.nodes], "typed": spec.typed, "tags": tags,
+                                            "args": {k: list(v) for k, v in args.items()}, "clause": clause, "text": text})
     return rep
 
 
@@ -436,6 +526,15 @@ def _one(a):
     return r
 
 
+# contracts phrased over engine-internal state (callback event log, SV identity, ghost lock depth): not evaluable here;
+# the callback adapters have their own run-time contract check in native/props/cbunit.py
+NOT_EVALUABLE = {
+    "nutree.common.call_mapper": "callback event log", "nutree.common.call_predicate": "callback event log", "nutree.common.call_traversal_cb": "callback event log",
+    "nutree.tree.Tree.__enter__": "ghost lock depth", "nutree.tree.Tree.__exit__": "ghost lock depth",
+    "nutree.typed_tree.TypedTree.__enter__": "ghost lock depth", "nutree.typed_tree.TypedTree.__exit__": "ghost lock depth",
+}
+
+
 def main(argv=None):
     import argparse
     import multiprocessing as mp
@@ -448,13 +547,26 @@ def main(argv=None):
     ap.add_argument("--per-tree", type=int, default=12)
     ap.add_argument("--json")
     ap.add_argument("-v", action="store_true")
+    ap.add_argument("--replay", help="replay file written by check (kind rtcheck): re-run that one call and re-evaluate the clause")
     a = ap.parse_args(argv)
     sys.path.insert(0, a.src)
     sys.path.insert(0, VERIF)
     from .api import load_contracts
 
     reg = load_contracts()
-    quals = [q for q, c in sorted(reg.items()) if not c.inline and not q.startswith("lemma.")]
+    if a.replay:
+        from native import gen
+
+        w = json.load(open(a.replay))["witness"]
+        spec = gen.Spec(tuple(tuple(r) for r in w["spec_nodes"]), typed=w["typed"])
+        st, fails, _n = run_case(w["qual"], reg[w["qual"]], w["family"], spec, w["tags"], {k: tuple(v) for k, v in w["args"].items()})
+        hit = [(c, t) for c, t in fails if c == w["clause"]] or fails
+        for c, t in hit:
+            print(f"REPLAY-VIOLATED function={w['qual']} clause={c}: {t[:300]}")
+        if not hit:
+            print(f"REPLAY-HOLDS function={w['qual']}: the stored call no longer violates the clause ({st})")
+        return 1 if hit else 0
+    quals = [q for q, c in sorted(reg.items()) if not c.inline and not q.startswith("lemma.") and q not in NOT_EVALUABLE]
     if a.prop:
         quals = [q for q in quals if a.prop in reg[q].props or any(a.prop in e.props for e in reg[q].ensures_)]
     if a.func:
